@@ -21,7 +21,8 @@ CLAIMS = {
     text=("Complete static decision: for all three families and n=2..16 the compare-exchange sequence is extracted from "
           "the instantiated code and shown to sort all 2^n zero-one inputs (zero-one principle => every input, every strict "
           "weak order); each size dispatcher is interpreted for sizes 0..16 and must reach a network sorting exactly slots "
-          "0..n-1; CS_IfSwap exchanges iff right<left (ties free). Every input is covered because the code is data-oblivious."),
+          "0..n-1; CS_IfSwap is evaluated on two labelled elements for the three consistent comparator outcomes and must leave a permutation "
+          "of the two elements with not(right<left) (so a min/max formulation that loses one of two equivalent elements is reported). Every input is covered because the code is data-oblivious."),
     note=(TRUST + "Assumes the comparator is a strict weak order and std::swap exchanges its arguments. "
           "Sizes above 16 (abort) are outside the property."),
  ),
@@ -31,7 +32,8 @@ CLAIMS["C09"] = dict(
     level="other",
     technique="static analysis: decision tables extracted from the instantiated AST of the replay loops / init_winner, enumerated over all weak-order-consistent atom valuations; idiom rules on loop ranges and stores",
     text=("Decides the local decisions of all eight loser-tree classes completely: REPLAY-TABLE (swap required when the stored loser is "
-          "strictly smaller in (exhausted,key[,source]), forbidden when the challenger is), REPLAY-FIELDS (no mixed player), INIT-TABLE "
+          "strictly smaller in (exhausted,key[,source]), forbidden when the challenger is; in the unguarded unstable trees also forbidden on ties, because the stored entry can be a "
+          "padding leaf whose sentinel equals a live key), REPLAY-FIELDS (no mixed player), INIT-TABLE "
           "(ties to the lower index, loser stored), REPLAY-PATH (leaf parent -> root, slot 0 receives all fields), MIN-SOURCE, PADDING "
           "(all leaves beyond ik_ exhausted/sentinel), SWITCH-AGREE (copy variant iff sizeof<=2 words). These are necessary conditions of "
           "the property for every player count and history; the history-level tournament invariant follows by the usual induction, which "
@@ -45,7 +47,7 @@ CLAIMS["C16"] = dict(
     text=("Decides the lifetime skeleton: SLOT-CURSOR (8 primitive RingBuffer mutators construct/destroy exactly the slot that enters/leaves the live "
           "range, cursors wrapped), ACCESSOR-CONVENTION (front/back/[]/size use the same convention), CLEAR-BEFORE-FREE, MOVED-EMPTY, COPY-ELEMENTS; "
           "SimpleVector SV-MODE-TABLE (new[]<->delete[], operator new<->operator delete, destructor loop only in NoInitButDestroy), SV-OWNER, "
-          "SV-RESIZE-ORDER. These are necessary conditions of 'an element is alive iff stored' on every path of every mutator; found the pop_back defect (fixed)."),
+          "SV-RESIZE-ORDER, SV-COUPLED, CURSOR-RESET, CAPACITY-SPARE-SLOT (every capacity computation keeps one slot beyond max_size: constructor, allocate, load). These are necessary conditions of 'an element is alive iff stored' on every path of every mutator; found the pop_back defect (fixed)."),
     note=(TRUST + "Not decided: equivalence with a bounded deque over whole histories, capacity preconditions (asserts), exception safety of element constructors."),
 )
 
@@ -68,7 +70,8 @@ CLAIMS["C05"] = dict(
           "BUBBLE-TABLE: comparison and exchange decisions equal the (stable) order on all weak-order-consistent valuations. PHASE-LENGTH-SUM / TAIL-ORDER / "
           "PREPARE-BOUNDS: the combined variants emit exactly `size` elements over their two phases, merge the remaining sequences in index order and split "
           "with upper/lower_bound as stability requires. DISPATCH-TOTAL / STABLE-PROPAGATE / SENTINEL-REACH / FRONTEND-FLAGS over the four base instantiations. "
-          "LT-PROTOCOL for the loser-tree drivers. Complete for k<=4 given sorted inputs; k>=5 rests on C09."),
+          "LT-PROTOCOL for the loser-tree drivers; COMP-THREADED (every std ordering algorithm receives the caller's comparator); the C09 replay / initialisation tables for the "
+          "copy- and pointer-based loser trees instantiated here. Complete for k<=4 given sorted inputs; k>=5 rests on the tournament argument."),
     note=(TRUST + "Assumes sorted inputs, strict weak order, size <= total. Not decided: overhang arithmetic inside prepare_unguarded, k=1 copy, the "
           "tournament induction for k>=5, iterator validity of unguarded variants (sentinel contract)."),
 )
@@ -101,7 +104,7 @@ CLAIMS["C10"] = dict(
     technique="static analysis: lock-state dataflow over the clang CFG (RAII guards, explicit lock/unlock, condition-variable waits) + lockset, must-pass-through (write => notify), predicate truth tables for write polarity, dominance/post-dominance ordering rules",
     text=("LOCKSET (jobs_ only under mutex_), TAKE-ATOMIC, RUN-UNLOCKED, JOB-LIFETIME, BUSY-PAIR, WRITE-NOTIFY (every enabling write to a wait-predicate variable is "
           "followed by a notify on all paths with the mutex held at the write or the notify), NOTIFY-KIND (found: cv_finished_ has two predicates but was signalled with "
-          "notify_one - fixed), NO-BARE-WAIT, JOIN-UNLOCKED over all ThreadPool members. Necessary conditions of exactly-once execution, quiescence of loop_until_empty and "
+          "notify_one - fixed), NO-BARE-WAIT, JOIN-UNLOCKED, EXCEPTION-BALANCED (no completion step shares the try block with the job invocation) over all ThreadPool members. Necessary conditions of exactly-once execution, quiescence of loop_until_empty and "
           "absence of lost wake-ups under every schedule."),
     note=(TRUST + "Frozen tables: jobs_ guarded by mutex_; the destructor need not notify cv_finished_. Not decided: deadlock freedom / termination over all schedules as such, done() equality, exceptions not derived from std::exception."),
 )
@@ -119,7 +122,7 @@ CLAIMS["C20"] = dict(
     technique="static analysis: overload-family and intrinsic width/guard rules over the typed AST, symbolic bit-provenance evaluation of the shift/mask fall-backs, overflow-before-narrowing rule, exact rational identity test of the extracted Aggregate formulas, pre-state purity (read-after-overwrite) rule",
     text=("FAMILY-COMPLETE, INTRINSIC-WIDTH, INTRINSIC-GUARD, SIGNED-FORWARD for nine helper families x six integer types; BIT-PROVENANCE decides bswap16/32/64_generic and "
           "rol/ror32/64_generic completely (all bits, all rotation amounts); NO-OVERFLOW-BEFORE-NARROW (found and fixed: round_down_to_power_of_two, div_ceil, round_up), BOOL-TOTAL; "
-          "Aggregate PRESTATE-PURITY (found and fixed: operator+= variance), PLUS-TWINS, COMBINE-FORMULA, DIV-GUARD (found and fixed: NaN for two empty operands), ADD-ORDER."),
+          "Aggregate PRESTATE-PURITY (found and fixed: operator+= variance), PLUS-TWINS, COMBINE-FORMULA (exact rational evaluation that honours C++ integer division), DIV-GUARD (found and fixed: NaN for two empty operands), ADD-ORDER."),
     note=(TRUST + "Not decided: the loop-based generic templates (clz/ctz/ffs/integer_log2), popcount SWAR arithmetic, agreement of intrinsics with their definition (trusted compiler), floating-point rounding."),
 )
 
@@ -128,7 +131,8 @@ CLAIMS["C18"] = dict(
     technique="static analysis: small-model evaluation of the extracted integer guard prefixes against std::string_view's clamping rules, banned-primitive / signed-order who-may-call rules over the typed AST, scan-bound and position-flow rules, relational derivation and overload role tables",
     text=("GUARD-TABLES for at/substr/copy and the six find-family members (throw / early return / clamped scan start on all orderings of pos, size, n, argument size "
           "incl. npos wrap-around), NO-CSTR-PRIMITIVE and BYTE-ORDER-UNSIGNED (found and fixed: compare/rfind via strncmp, operator< on signed char), POS-REACHES-ACCESS "
-          "(found and fixed: copy ignored pos), SCAN-BOUND, REL-FROM-COMPARE, OVERLOAD-ROLES (18 forwarding overloads)."),
+          "(found and fixed: copy ignored pos), SCAN-BOUND, REL-FROM-COMPARE, OVERLOAD-ROLES (18 forwarding overloads). BYTE-ORDER-UNSIGNED also covers hand-written relational "
+          "comparisons of two plain-char reads; the empty-view case of GUARD-TABLES accepts a scan only from the single valid position."),
     note=(TRUST + "Not decided: the values returned by the std algorithms the members delegate to (std::search, find_first_of, char_traits), i.e. search results as such; max_size(); UB cases of std::string_view."),
 )
 
@@ -137,8 +141,8 @@ CLAIMS["C19"] = dict(
     technique="static analysis: table agreement (alphabet vs decode table, digit tables vs parser switches), symbolic bit provenance of the base64 encoder/decoder, scan-window guard rule, writer/reader class agreement via decision tables, end-of-input decision tables of the comparison overloads, parameter-name role rule for forwarding overloads",
     text=("B64-TABLES / B64-SKIP / B64-BITS decide that decode o encode is the identity on the bit level and that padding/whitespace are skipped; HEX-TABLES; SCAN-WINDOW "
           "(found and fixed: split/split_view missed a trailing separator and produced inverted ranges on overlapping matches); QUOTE-AGREE (found and fixed: join_quoted "
-          "did not quote empty fields / leading quotes); CMP3-ORIENT and ICASE-OVERLOADS (found and fixed: compare_icase prefix sign x4, equal_icase(view,cstr)); FORWARD-ROLES."),
-    note=(TRUST + "Not decided: line-break placement of base64_encode, values of the pure helpers (trim, pad, replace, erase_all, contains, starts/ends_with, levenshtein, to_lower/upper), join/split round trip beyond the scan-window conditions."),
+          "did not quote empty fields / leading quotes); CMP3-ORIENT and ICASE-OVERLOADS (found and fixed: compare_icase prefix sign x4, equal_icase(view,cstr)); FORWARD-ROLES; REPLACE-RESUME (replace_all resumes exactly behind what it wrote)."),
+    note=(TRUST + "Not decided: line-break placement of base64_encode, values of the pure helpers (trim, pad, replace_first, erase_all, contains, starts/ends_with, levenshtein, to_lower/upper), join/split round trip beyond the scan-window conditions."),
 )
 
 CLAIMS["C14"] = dict(
@@ -146,7 +150,7 @@ CLAIMS["C14"] = dict(
     technique="static analysis: per-path linear effect summaries of the chunking loops (conserved quantity with guard-equality substitution), threshold/byte-order relations of finalize(), constant tables recomputed from their defining formulas, truth tables / GF(2) basis evaluation of the extracted word functions, switch-table and shift-width rules for the SipHash tail",
     text=("PROCESS-CONSERVE, DIRECT-ONLY-EMPTY, COPY-BOUND, FLUSH-RESET for the four process() loops (independence of the digest from the chunking is exactly the conservation "
           "of length_ + 8 curlen_ + 8 size on every path); FINAL-THRESHOLDS incl. byte order of length and state stores; HEX-FRONTENDS; CONST-TABLES (SHA-2 K/IV from roots of "
-          "primes, MD5 K from sin, schedules); BOOLFN-TABLES; ROT-SETS; SIP-TAIL for both SipHash implementations."),
+          "primes, MD5 K from sin, schedules); BOOLFN-TABLES; ROT-SETS; SIP-TAIL for both SipHash implementations; SIMD-ALIGNMENT (no aligned vector access through the caller's byte pointers)."),
     note=(TRUST + "Not decided: the compression rounds' dataflow (covered by the suite's vectors: any slip avalanches), SSE2 == portable SipHash beyond the tail assembly, 32-bit size parameter overflow for messages >= 4 GiB."),
 )
 
@@ -155,7 +159,8 @@ CLAIMS["C08"] = dict(
     technique="static analysis: decision tables of the tie-break comparators, orientation/source rules of the skew-correction queues and edge scans, dominating index-guard rule, structural check of the stable middle decision, twin agreement (normalised decision sets) of the partition and selection copies",
     text=("Thin by nature - the halving refinement and the returned ranks are numeric. Decided: LEXI-TABLE (x4), PQ-ORIENT, EDGE-TIEBREAK, INDEX-GUARD (32 element accesses), "
           "MIDDLE-LEXI (found and fixed: partition split runs of equal elements by key only, violating the lower-sequence-first clause on 45808 of 411879 small inputs), "
-          "TWIN-AGREE between multisequence_partition and multisequence_selection (any one-sided change of a guard in the duplicated refinement is reported)."),
+          "TWIN-AGREE between multisequence_partition and multisequence_selection (any one-sided change of a guard in the duplicated refinement is reported), "
+          "COMP-THREADED, SIGN-TEST-SIGNED (locals whose sign is tested are signed also for an unsigned rank type; the witness instantiates size_t ranks and std::greater)."),
     note=(TRUST + "Not decided: exactness of the returned rank, left <= right, selection's value/offset (numeric refinement). TWIN-AGREE exceptions are frozen with reasons in rules/c08.py; a change made identically to both copies is not seen by it."),
 )
 
@@ -163,7 +168,7 @@ CLAIMS["C06"] = dict(
     level="other",
     technique="static analysis: construct/destroy pairing on the raw buffer by CFG dominance, barrier-phase rule (own-slot write / barrier / cross-slot read / barrier / release) with value-set handling of the splitting-algorithm branches, fork/join and capture rules, Stable propagation through the instantiated call chain",
     text=("TEMP-DESTROY (found and fixed: temporaries were never destroyed), BARRIER-PHASES, BARRIER-BALANCE, FORK-JOIN, INDEX-BY-COPY, STABLE-PROPAGATE "
-          "(stable entry point -> stable_sort + stable multiway merge), SPLIT-INDEX-BOUND. Necessary conditions of data-race freedom, termination at the barriers, "
+          "(stable entry point -> stable_sort + stable multiway merge), SPLIT-INDEX-BOUND, COMP-THREADED, and the C09 tables for the pointer-based loser trees the merge of the runs uses. Necessary conditions of data-race freedom, termination at the barriers, "
           "stability and the 'every temporary copy is destroyed' clause."),
     note=(TRUST + "Not decided: sortedness / permutation (values; rests on C05, C08), splitting arithmetic, full data-race freedom. The OpenMP branch is not compiled in the witness."),
 )
